@@ -647,7 +647,7 @@ class SignedFunction(Function):
     }
     positional = dict(zip(sig.param_names, posargs))
     posonly_names = set(sig.posonly_params)
-    for key in set(positional) - posonly_names:
+    for key in sorted(set(positional) - posonly_names):
       if key in kws:
         raise error_types.DuplicateKeyword(sig, args, self.ctx, key)
     kwnames = set(kws)
